@@ -44,15 +44,15 @@ theorem lookup_slots (sha1hex : Bytes → Bytes) (scripts : Bytes → Option (By
         exact ih hnd.2 hin
 
 /-- **members by name** -/
-theorem lookup_members (sha1hex : Bytes → Bytes) (pkginfo : Bytes) (scripts : Bytes → Option (Bytes × Nat)) :
-    lookup b!".PKGINFO" (members sha1hex pkginfo scripts) = some (pkginfoMember pkginfo)
-    ∧ ∀ n ∈ slots, lookup n (members sha1hex pkginfo scripts) = (scripts n).map (fun p => scriptMember sha1hex n p.1 p.2) := by
+theorem lookup_members (sha1hex : Bytes → Bytes) (pkginfo : Bytes) (scripts : Bytes → Option (Bytes × Nat)) (mtime : Nat) :
+    lookup b!".PKGINFO" (members sha1hex pkginfo scripts mtime) = some (pkginfoMember pkginfo mtime)
+    ∧ ∀ n ∈ slots, lookup n (members sha1hex pkginfo scripts mtime) = (scripts n).map (fun p => scriptMember sha1hex n p.1 p.2) := by
   refine ⟨by simp [members, lookup, pkginfoMember], ?_⟩
   intro n hn
   have hkey := lookup_slots sha1hex scripts slots (by decide) n hn
   unfold members
   unfold lookup at hkey ⊢
-  have hne : decide ((pkginfoMember pkginfo).hdr.name = n) = false := by
+  have hne : decide ((pkginfoMember pkginfo mtime).hdr.name = n) = false := by
     apply decide_eq_false
     simp only [slots, List.mem_cons, List.mem_nil_iff, or_false] at hn
     rcases hn with rfl | rfl | rfl | rfl | rfl | rfl <;> simp [pkginfoMember] <;> decide
